@@ -156,7 +156,8 @@ def parse_gkf(text):
                     if _strip(o.tag) == "vec":
                         for k in ("dx", "dy", "dz"):
                             P["obs"].append(dict(kind=k, frm=o.get("from"), to=o.get("to"), fs=None, cl=ncl,
-                                                 fdh=0.0, tdh=0.0, val=LD(float(o.get(k)))))
+                                                 fdh=float(o.get("from_dh", 0.0)), tdh=float(o.get("to_dh", 0.0)),
+                                                 val=LD(float(o.get(k)))))
             elif t == "coordinates":
                 ncl += 1
                 for o in e:
@@ -648,6 +649,14 @@ def judge(ck, rows, want_text):
                          "but not reduced to (-200, 200] gon" % (kind, gr, er), i, dict(expected_rhs=er))
             else:
                 d = gr - e
+                if kind == "dz" and (m["fdh"] != 0 or m["tdh"] != 0):
+                    # <vec from_dh to_dh>: the manual lists the attributes ("instrument height", "target height")
+                    # but not their effect; both readings are accepted and which one gama implements is counted
+                    d2 = gr - (e - (m["tdh"] - m["fdh"]) * 1000.0)
+                    ck.count("dz of a vector with instrument/target heights: heights %s" % (
+                        "ignored" if abs(d) <= tol else "applied" if abs(d2) <= tol else "neither"), 1)
+                    if abs(d2) < abs(d):
+                        d = d2
                 ck.ratio("rhs error / tolerance", abs(d), tol)
                 if abs(d) > tol:
                     viol("rhs:%s" % kind, "%s row: rhs %.9f, observed - computed = %.9f %s (difference %.3g)" % (
@@ -1081,9 +1090,13 @@ class Solo(Adv):
                                   "</height-differences>"])
         elif kind in ("dx", "dy", "dz"):
             B = self.pts["B"]
-            self.clusters.append(["<vectors>", '<vec from="A" to="B" dx="%s" dy="%s" dz="%s" />' % (
+            att = ""
+            if rng.uniform() < 0.3:
+                att = ' from_dh="%s" to_dh="%s"' % (_fmt(round(float(rng.uniform(1.2, 1.8)), 3)),
+                                                    _fmt(round(float(rng.uniform(0.0, 2.5)), 3)))
+            self.clusters.append(["<vectors>", '<vec from="A" to="B" dx="%s" dy="%s" dz="%s"%s />' % (
                 _fmt(B["x"] - A["x"] + rng.uniform(-0.2, 0.2)), _fmt(B["y"] - A["y"] + rng.uniform(-0.2, 0.2)),
-                _fmt(B["z"] - A["z"] + rng.uniform(-0.2, 0.2)))] + self._cov(3) + ["</vectors>"])
+                _fmt(B["z"] - A["z"] + rng.uniform(-0.2, 0.2)), att)] + self._cov(3) + ["</vectors>"])
         else:
             self.coordinates(["A", "B"][:int(rng.integers(1, 3))], keep=1.0)
 
@@ -1239,9 +1252,6 @@ def run(tier, seed, only=None):
             except Exception as ex:       # the oracle's own reader failing is a harness problem
                 raise runner.HarnessError("oracle reader failed on generated input %s: %s" % (job, ex))
             for k, e in enumerate(ev):
-                if e["iteration"] != k:
-                    ck.inconc("linearisations out of sequence")
-                    break
                 collect(ck, rows, P, e, dict(netinfo, linearisation=k), source="gama-local", first=(k == 0))
                 ck.count("linearisations checked: %s" % ("first" if k == 0 else "later (gama's own coordinates)"), 1)
 
